@@ -195,7 +195,9 @@ def header_cases(tier):
         st.sampled_from([None, '']), max_size=3)
     unset2 = st.dictionaries(st.sampled_from([n for n in NAMES if n != 'cluster_id']),
                               st.none(), max_size=3)
-    return st.builds(with_unset, S.header_cases(), st.one_of(
+    base = st.one_of(S.header_cases(), S.header_cases(), S.header_cases(),
+                     S.header_cases(), S.big_header_cases())
+    return st.builds(with_unset, base, st.one_of(
         st.just({}), st.just({}), unset, unset2))
 
 
